@@ -71,8 +71,12 @@ theorem C03_completion_is_signalled_only_for_a_finished_tree (w : World) (e : EI
   by_cases hemp : (w.ev e).results.isEmpty = true
   · have hnil : (w.ev e).results = [] := by simpa using hemp
     simp [Ev.allTerminal, hnil]
+    have hch : (w.ev e).children = [] := by simp [Ev.children, hnil]
     unfold allChildrenComplete
-    simp [Ev.children, hnil]
+    rw [hch]
+    unfold allDoneFrom
+    simp [hch]
+    cases walkBudget w <;> simp [allDoneFrom]
   · simp only [hemp] at h1
     by_cases ht : (w.ev e).allTerminal = true
     · by_cases hc : allChildrenComplete w (w.ne + 1) e = true
